@@ -707,18 +707,19 @@ Proof.
   apply winv_resume_proc. eapply winv_unregister; eauto. apply mem_cb_cnt, M.
 Qed.
 
-Lemma winv_run_cb codes fuel e c t s s' :
-  winv (Some (e, c :: t)) None s -> run_cb fuel codes e c s = (s', ROk) -> winv (Some (e, t)) None s'.
+Lemma winv_run_cb codes fuel e c t s s' r :
+  winv (Some (e, c :: t)) None s -> run_cb fuel codes e c s = (s', r) -> cb_ok c r -> winv (Some (e, t)) None s'.
 Proof.
-  intros W. destruct c; cbn [run_cb].
-  - apply winv_resume_proc. apply winv_pop_resume, W.
-  - intros H. injection H as <-. eapply winv_sim; [apply sim_cond_check|]. eapply winv_pop_other; [|exact W]. reflexivity.
-  - intros H. pose proof (sim_cond_build c s) as S. rewrite H in S. cbn [fst] in S.
+  intros W H K.
+  destruct c; try (destruct K as [->|[Sc _]]; [|discriminate Sc]); cbn [run_cb] in H.
+  - revert H. apply winv_resume_proc. apply winv_pop_resume, W.
+  - injection H as <-. eapply winv_sim; [apply sim_cond_check|]. eapply winv_pop_other; [|exact W]. reflexivity.
+  - pose proof (sim_cond_build c s) as S. rewrite H in S. cbn [fst] in S.
     eapply winv_sim; [exact S|]. eapply winv_pop_other; [|exact W]. reflexivity.
-  - apply winv_do_interruption. eapply winv_pop_other; [|exact W]. reflexivity.
-  - intros H. pose proof (stop_cb_state e s) as S. rewrite H in S. cbn [fst] in S. subst s'.
+  - revert H. apply winv_do_interruption. eapply winv_pop_other; [|exact W]. reflexivity.
+  - pose proof (stop_cb_state e s) as S. rewrite H in S. cbn [fst] in S. subst s'.
     eapply winv_pop_other; [|exact W]. reflexivity.
-  - intros H. injection H as <-. apply (winv_sim (Some (e, t)) None s); [apply sim_same; reflexivity|].
+  - injection H as <-. apply (winv_sim (Some (e, t)) None s); [apply sim_same; reflexivity|].
     eapply winv_pop_other; [|exact W]. reflexivity.
 Qed.
 
@@ -727,12 +728,13 @@ Lemma winv_chain codes fuel e l1 : forall l2 s s',
 Proof.
   induction l1 as [|c t IH]; intros l2 s s' W Ch; inversion Ch; subst.
   - exact W.
-  - eapply IH; [|eassumption]. eapply winv_run_cb; [exact W|eassumption].
+  - eapply IH; [|eassumption]. eapply winv_run_cb; [exact W|eassumption|assumption].
 Qed.
 
 (* ------------------------------------------------------------------------------------------------ *)
-(* clean steps: the callback loop ran to its end, or was ended by the stop callback of run(until) as the LAST callback.
-   (An exception escaping from the middle of the loop drops the remaining callbacks: DESIGN.md 4 (ii).) *)
+(* clean steps: the callback loop ran through all callbacks (the stop callback of run(until) does not end it: what it raises
+   is raised after the loop).  An exception escaping from the middle of the loop drops the remaining callbacks:
+   DESIGN.md 4 (ii). *)
 
 Definition step_clean (fuel : nat) (codes : list prog) (s : state) : Prop :=
   match pop_min (agenda s) with
@@ -743,23 +745,10 @@ Definition step_clean (fuel : nat) (codes : list prog) (s : state) : Prop :=
       | Some ev =>
           match cbs ev with
           | None => True
-          | Some l =>
-              (exists s', cb_chain fuel codes (e_ev m) l (loop_start m rest s) s') \/
-              (exists pre s', l = pre ++ [CbStop] /\ cb_chain fuel codes (e_ev m) pre (loop_start m rest s) s')
+          | Some l => exists s', cb_chain fuel codes (e_ev m) l (loop_start m rest s) s'
           end
       end
   end.
-
-Lemma run_callbacks_app fuel codes e pre post : forall s smid,
-  cb_chain fuel codes e pre s smid -> run_callbacks fuel codes e (pre ++ post) s = run_callbacks fuel codes e post smid.
-Proof.
-  induction pre as [|c t IH]; intros s smid Ch; inversion Ch; subst; [reflexivity|].
-  cbn [app run_callbacks]. match goal with A : run_cb _ _ _ _ _ = _ |- _ => rewrite A end. apply IH. assumption.
-Qed.
-
-Lemma step_tail_fst e (x : state * result) :
-  fst (let '(s2, r) := x in match r with ROk => (s2, check_failure e s2) | _ => (s2, r) end) = fst x.
-Proof. destruct x as [s2 r]. destruct r; reflexivity. Qed.
 
 Lemma winv_loop_start m rest s ev l :
   winv None None s -> get_event (e_ev m) s = Some ev -> cbs ev = Some l -> winv (Some (e_ev m, l)) None (loop_start m rest s).
@@ -770,18 +759,13 @@ Qed.
 
 Lemma winv_step fuel codes s : winv None None s -> step_clean fuel codes s -> winv None None (fst (step fuel codes s)).
 Proof.
-  intros W Cl. unfold step_clean in Cl. unfold step.
-  destruct (pop_min (agenda s)) as [[m rest]|]; [|exact W].
-  rewrite get_event_pop_state. destruct (get_event (e_ev m) s) as [ev|] eqn:G; [|contradiction].
+  intros W Cl. unfold step_clean in Cl.
+  destruct (pop_min (agenda s)) as [[m rest]|] eqn:P; [|unfold step; rewrite P; exact W].
+  destruct (get_event (e_ev m) s) as [ev|] eqn:G; [|contradiction].
   destruct (cbs ev) as [l|] eqn:C.
-  - fold (loop_start m rest s). rewrite step_tail_fst. pose proof (winv_loop_start m rest s ev l W G C) as W0.
-    destruct Cl as [(s' & Ch)|(pre & s' & -> & Ch)].
-    + rewrite (cb_chain_run _ _ _ _ _ _ Ch). cbn [fst].
-      apply (winv_close (e_ev m)). eapply (winv_chain codes fuel (e_ev m) l []); [rewrite app_nil_r; exact W0|exact Ch].
-    + pose proof (winv_chain codes fuel (e_ev m) pre [CbStop] _ _ W0 Ch) as W1.
-      rewrite (run_callbacks_app _ _ _ _ _ _ _ Ch). cbn [run_callbacks run_cb].
-      pose proof (stop_cb_state (e_ev m) s') as S. destruct (stop_cb (e_ev m) s') as [s1 r1]. cbn [fst] in S. subst s1.
-      assert (W2 : winv None None s') by (apply (winv_close (e_ev m)); eapply winv_pop_other; [|exact W1]; reflexivity).
-      destruct r1; exact W2.
-  - cbn [fst]. apply (winv_sim None None s); [apply sim_same; reflexivity|exact W].
+  - destruct Cl as (s' & Ch). rewrite (step_fst_chain _ _ _ _ _ _ _ _ P G C Ch).
+    pose proof (winv_loop_start m rest s ev l W G C) as W0.
+    apply (winv_close (e_ev m)). eapply (winv_chain codes fuel (e_ev m) l []); [rewrite app_nil_r; exact W0|exact Ch].
+  - rewrite (step_processed_twice _ _ _ _ _ _ P G C). cbn [fst].
+    apply (winv_sim None None s); [apply sim_same; reflexivity|exact W].
 Qed.
